@@ -418,7 +418,237 @@ def gen(rng, tier):
             n2 = n1 if rng.chance(0.7) else rng.randint(0, 200)
             lines.append(L_d(kind, meth, own, (n1, n2), val(rng, n1), val(rng, n2)))
             cover["dot_vv"] += 1
+    strata(rng.fork("strata"), tier, lines, cover)
     return lines, cover
+
+
+# ------------------------------------------------------------------------------------------------
+# generic strata (tools/GENERIC_STRATA.md): exact special values, size boundaries, extreme power-of-two
+# scales, zeros facing inf/NaN, vector lengths that are multiples of the contracted dimension
+import math as _m
+
+MOD_SPECIALS = [0.0, -0.0, 1.0, -1.0, 0.5, 2.0, 3.0, 1.5, -2.5, 1.0 / 3.0, 2.0 / 3.0, 4.0, 1024.0, 2.0 ** -20,
+                _m.nextafter(1.0, 2.0), _m.nextafter(1.0, 0.0), _m.nextafter(2.0, 3.0), _m.nextafter(0.5, 0.0),
+                2.0 ** -52, 2.0 ** -53, 2.0 ** -60, 2.0 ** 60, 1e-16, 1e16]
+NONFINITE = [float("inf"), -float("inf"), float("nan")]
+EDGE_DIMS = [1, 2, 3, 7, 8, 9, 15, 16, 17, 31, 32, 33, 63, 64, 65]
+# m, l, n with m*l*n just below / at / above 32768 (and the 63/64/65 cube corners)
+VOLUMES = [(32, 32, 32), (32, 32, 33), (31, 32, 33), (33, 32, 31), (64, 64, 8), (8, 64, 64), (64, 8, 64), (64, 8, 65),
+           (63, 8, 65), (128, 16, 16), (16, 16, 128), (16, 128, 16), (129, 16, 16), (127, 16, 16), (1, 32768, 1),
+           (1, 32769, 1), (2, 16384, 1), (1, 16384, 2), (181, 181, 1), (182, 1, 181), (1, 181, 182), (32768, 1, 1),
+           (1, 1, 32769), (63, 64, 65), (65, 64, 63), (64, 64, 64), (65, 65, 65), (63, 63, 63), (64, 65, 1), (1, 65, 64)]
+
+
+def realsp(rng, n):
+    """random reals with moderate exact special values mixed in"""
+    out = reals(rng, n)
+    for k in range(n):
+        if rng.chance(0.2):
+            out[k] = rng.choice(MOD_SPECIALS)
+    return out
+
+
+def zinf(rng, n):
+    """zeros, moderate values and inf / nan side by side (0 * inf = nan must propagate)"""
+    return [rng.choice([0.0, -0.0, 0.0, 1.0, -2.0, 0.5]) if rng.chance(0.5) else
+            (rng.choice(NONFINITE) if rng.chance(0.35) else float(rng.randint(-3, 3))) for _ in range(n)]
+
+
+def scale(xs, p):
+    return [_m.ldexp(x, p) for x in xs]
+
+
+def strata(rng, tier, lines, cover):
+    quick = tier != "thorough"
+    flags = [(0, 0), (1, 0), (0, 1), (1, 1)]
+    for k_ in ("s_special", "s_edge_dims", "s_volume", "s_scale_exact", "s_scale_equiv", "s_zero_inf", "s_vec_multiple",
+               "s_dot_8k", "s_block_edges", "s_extreme"):
+        cover[k_] = 0
+    rep = 1 if quick else 6
+
+    def mm_with_blocks(ta, tb, ra, rb, a, b, m, l, n, nb):
+        lines.append(L_mm(ta, tb, ra, rb, a, b))
+        cands = [1, 2, 7, 8, 9, 16, 31, 32, 33, 63, 64, 65, l, n, m, l + 1, n + 1, max(1, l - 1), max(1, n - 1),
+                 2 * max(m, l, n), 1 << 20, 1 << 40]
+        for bs in sorted({rng.choice(cands) for _ in range(nb)}):
+            lines.append(L_mb(ta, tb, ra, rb, bs, a, b))
+            cover["s_block_edges"] += 1
+
+    # 1. exact special values mixed into real data (mm/mb, xtx, every Dot kind)
+    for q in range(60 * rep):
+        m, l, n = (rng.choice(EDGE_DIMS[:9]) for _ in range(3))
+        ta, tb = flags[q % 4]
+        ra, ca, rb, cb = stored(m, l, n, ta, tb)
+        mm_with_blocks(ta, tb, ra, rb, realsp(rng, ra * ca), realsp(rng, rb * cb), m, l, n, 2)
+        meth, own = METHS[q % 4], (q // 4) % 4
+        r1, c1, r2, c2 = stored(m, l, n, meth in ("t_dot", "t_dot_t"), meth in ("dot_t", "t_dot_t"))
+        lines.append(L_d("dmm", meth, own, (r1, c1, r2, c2), realsp(rng, r1 * c1), realsp(rng, r2 * c2)))
+        nv = r1 if meth in ("t_dot", "t_dot_t") else c1
+        lines.append(L_d("dmv", meth, own, (r1, c1, nv), realsp(rng, r1 * c1), realsp(rng, nv)))
+        nv = c2 if meth in ("dot_t", "t_dot_t") else r2
+        lines.append(L_d("dvm", meth, own, (nv, r2, c2), realsp(rng, nv), realsp(rng, r2 * c2)))
+        nv = rng.randint(1, 40)
+        lines.append(L_d("dvv", meth, own, (nv, nv), realsp(rng, nv), realsp(rng, nv)))
+        lines.append(L_xtx(m, realsp(rng, m * l)))
+        cover["s_special"] += 7
+    # 2. dimension boundaries 2^k-1, 2^k, 2^k+1 up to 65, non-square both orientations, a dimension of 1
+    for q in range(48 * rep):
+        m, l, n = (rng.choice(EDGE_DIMS) for _ in range(3))
+        if q % 6 == 0:
+            m = 1
+        elif q % 6 == 1:
+            n = 1
+        elif q % 6 == 2:
+            l = 1
+        ta, tb = flags[q % 4]
+        ra, ca, rb, cb = stored(m, l, n, ta, tb)
+        val = ints if q % 2 else realsp
+        mm_with_blocks(ta, tb, ra, rb, val(rng, ra * ca), val(rng, rb * cb), m, l, n, 3)
+        meth, own = METHS[(q // 4) % 4], q % 4
+        r1, c1, r2, c2 = stored(m, l, n, meth in ("t_dot", "t_dot_t"), meth in ("dot_t", "t_dot_t"))
+        lines.append(L_d("dmm", meth, own, (r1, c1, r2, c2), val(rng, r1 * c1), val(rng, r2 * c2)))
+        cover["s_edge_dims"] += 2
+    # 3. m*l*n around 32768 and the 63/64/65 corners: slice kernels and the trait, all flags
+    vols = VOLUMES if not quick else [VOLUMES[(7 * k + rng.randint(0, 2)) % len(VOLUMES)] for k in range(14)] + \
+        [(63, 64, 65), (64, 64, 64), (65, 65, 65), (32, 32, 32), (32, 32, 33), (31, 32, 33)]
+    for q, (m, l, n) in enumerate(vols):
+        for fi in (range(4) if not quick else [q % 4, (q + 1 + q // 4) % 4]):
+            ta, tb = flags[fi]
+            ra, ca, rb, cb = stored(m, l, n, ta, tb)
+            val = ints if (q + fi) % 2 else reals
+            a, b = val(rng, ra * ca), val(rng, rb * cb)
+            mm_with_blocks(ta, tb, ra, rb, a, b, m, l, n, 2)
+            meth = METHS[fi]
+            lines.append(L_d("dmm", meth, (q + fi) % 4, (ra, ca, rb, cb), a, b))
+            cover["s_volume"] += 2
+        if n == 1:   # the same product through Matrix . Vector and (m == 1) Vector . Matrix
+            a, b = ints(rng, m * l), ints(rng, l)
+            lines.append(L_d("dmv", "dot", q % 4, (m, l, l), a, b))
+            lines.append(L_d("dmv", "t_dot", q % 4, (l, m, l), a, b))
+            cover["s_volume"] += 2
+        if m == 1:
+            a, b = ints(rng, l), ints(rng, l * n)
+            lines.append(L_d("dvm", "dot", q % 4, (l, l, n), a, b))
+            lines.append(L_d("dvm", "dot_t", q % 4, (l, n, l), a, b))
+            cover["s_volume"] += 2
+    # 4. extreme exact power-of-two scales: integers * 2^p (every intermediate exact -> equality with the
+    #    exactly scaled integer product), and real data against its scaled copy (bit-exact equivariance)
+    for q in range(40 * rep):
+        m, l, n = (rng.choice(EDGE_DIMS[:8]) for _ in range(3))
+        ta, tb = flags[q % 4]
+        ra, ca, rb, cb = stored(m, l, n, ta, tb)
+        p, r = rng.choice([(-60, 60), (60, -60), (-500, 500), (500, -500), (-60, 0), (0, -60), (-300, -300), (400, 400),
+                           (-53, 0), (0, -1000), (-1000, 900), (-537, -537), (300, 600)])
+        a0, b0 = ints(rng, ra * ca), ints(rng, rb * cb)
+        a, b = scale(a0, p), scale(b0, r)
+        mm_with_blocks(ta, tb, ra, rb, a, b, m, l, n, 1)
+        meth, own = METHS[q % 4], (q // 4) % 4
+        lines.append(L_d("dmm", meth, own, (ra, ca, rb, cb), a, b))
+        nv = ra if ta else ca
+        v0 = ints(rng, nv)
+        lines.append(L_d("dmv", meth, own, (ra, ca, nv), a, scale(v0, r)))
+        nv = cb if tb else rb
+        v0 = ints(rng, nv)
+        lines.append(L_d("dvm", meth, own, (nv, rb, cb), scale(v0, p), b))
+        nv = rng.choice([1, 7, 8, 9, 16, 17, 40])
+        lines.append(L_d("dvv", meth, own, (nv, nv), scale(ints(rng, nv), p), scale(ints(rng, nv), r)))
+        lines.append(L_xtx(ra, scale(a0, p // 2)))
+        # one large entry next to tiny ones: terms far below eps * max must still be accumulated exactly
+        a1 = [_m.ldexp(x, -60) for x in a0]
+        a1[rng.randint(0, len(a1) - 1)] = 1.0
+        lines.append(L_mm(ta, tb, ra, rb, a1, scale(b0, 0)))
+        cover["s_scale_exact"] += 7
+    for q in range(24 * rep):
+        m, l, n = (rng.choice(EDGE_DIMS[:11]) for _ in range(3))
+        ta, tb = flags[q % 4]
+        ra, ca, rb, cb = stored(m, l, n, ta, tb)
+        a0, b0 = reals(rng, ra * ca), reals(rng, rb * cb)
+        lines.append(L_mm(ta, tb, ra, rb, a0, b0))
+        for (p, r) in ((-500, 0), (0, 500), (-60, 60), (250, 250), (-250, -250)):
+            lines.append(L_mm(ta, tb, ra, rb, scale(a0, p), scale(b0, r)))
+        nv = rng.choice([5, 8, 9, 64, 65, 1000])
+        x0, y0 = reals(rng, nv), reals(rng, nv)
+        meth, own = METHS[q % 4], (q // 4) % 4
+        lines.append(L_d("dvv", meth, own, (nv, nv), x0, y0))
+        for (p, r) in ((-500, 0), (-60, 60), (250, 250)):
+            lines.append(L_d("dvv", meth, own, (nv, nv), scale(x0, p), scale(y0, r)))
+        lines.append(L_d("dmv", meth, own, (ra, ca, ra if ta else ca), a0, x0[:1] * (ra if ta else ca)))
+        cover["s_scale_equiv"] += 11
+    # 5. zeros facing inf / nan (0 * inf = nan must reach the result), tiny / huge magnitudes (tie)
+    for q in range(60 * rep):
+        m, l, n = (rng.choice(EDGE_DIMS[:6]) for _ in range(3))
+        ta, tb = flags[q % 4]
+        ra, ca, rb, cb = stored(m, l, n, ta, tb)
+        a, b = zinf(rng, ra * ca), zinf(rng, rb * cb)
+        if q % 3 == 0:   # an all-zero operand against inf / nan
+            a = [0.0 if k % 2 else -0.0 for k in range(ra * ca)]
+        mm_with_blocks(ta, tb, ra, rb, a, b, m, l, n, 1)
+        meth, own = METHS[q % 4], (q // 4) % 4
+        lines.append(L_d("dmm", meth, own, (ra, ca, rb, cb), a, b))
+        nv = ra if ta else ca
+        lines.append(L_d("dmv", meth, own, (ra, ca, nv), a, zinf(rng, nv)))
+        nv = cb if tb else rb
+        lines.append(L_d("dvm", meth, own, (nv, rb, cb), zinf(rng, nv), b))
+        nv = rng.choice([1, 3, 8, 9, 17])
+        lines.append(L_d("dvv", meth, own, (nv, nv), zinf(rng, nv), zinf(rng, nv)))
+        lines.append(L_xtx(ra, a if q % 3 else b[:ra * ca] + a[len(b):]))
+        cover["s_zero_inf"] += 6
+    for q in range(20 * rep):
+        m, l, n = (rng.randint(1, 6) for _ in range(3))
+        ta, tb = flags[q % 4]
+        ra, ca, rb, cb = stored(m, l, n, ta, tb)
+        ext = lambda k: [rng.choice([1e300, -1e300, 1e-300, 5e-324, 2.0 ** -1022, 1.7976931348623157e308, 1e-310, 0.0, 1.0])
+                         if rng.chance(0.5) else rng.normal() for _ in range(k)]
+        mm_with_blocks(ta, tb, ra, rb, ext(ra * ca), ext(rb * cb), m, l, n, 1)
+        nv = rng.randint(1, 20)
+        lines.append(L_d("dvv", METHS[q % 4], q % 4, (nv, nv), ext(nv), ext(nv)))
+        cover["s_extreme"] += 2
+    # 6. vector / operand lengths that are a multiple (or a divisor) of the contracted dimension must panic
+    for q in range(40 * rep):
+        meth, own = METHS[q % 4], (q // 4) % 4
+        r, c = rng.randint(1, 6), rng.randint(1, 6)
+        con = r if meth in ("t_dot", "t_dot_t") else c          # Matrix . Vector contracts this dimension
+        for nv in sorted({2 * con, 3 * con, r * c, con * con, con + con * rng.randint(1, 4), max(1, con // 2), 0} - {con}):
+            lines.append(L_d("dmv", meth, own, (r, c, nv), ints(rng, r * c), ints(rng, nv)))
+            cover["s_vec_multiple"] += 1
+        con = c if meth in ("dot_t", "t_dot_t") else r          # Vector . Matrix
+        for nv in sorted({2 * con, 3 * con, r * c, con * con, max(1, con // 2), 0} - {con}):
+            lines.append(L_d("dvm", meth, own, (nv, r, c), ints(rng, nv), ints(rng, r * c)))
+            cover["s_vec_multiple"] += 1
+        # Matrix . Matrix / slice kernels: inner dimensions in ratio 1:2, same element counts
+        k = rng.randint(1, 4)
+        ta, tb = (meth in ("t_dot", "t_dot_t")), (meth in ("dot_t", "t_dot_t"))
+        m, n = rng.randint(1, 5), rng.randint(1, 5)
+        ra, ca = (k, m) if ta else (m, k)
+        rb, cb = (n, 2 * k) if tb else (2 * k, n)
+        a, b = ints(rng, ra * ca), ints(rng, rb * cb)
+        lines.append(L_d("dmm", meth, own, (ra, ca, rb, cb), a, b))
+        lines.append(L_mm(ta, tb, ra, rb, a, b))
+        lines.append(L_mb(ta, tb, ra, rb, rng.randint(1, 4), a, b))
+        ra2, ca2 = (2 * k, m) if ta else (m, 2 * k)
+        rb2, cb2 = (n, k) if tb else (k, n)
+        a, b = ints(rng, ra2 * ca2), ints(rng, rb2 * cb2)
+        lines.append(L_d("dmm", meth, own, (ra2, ca2, rb2, cb2), a, b))
+        lines.append(L_mm(ta, tb, ra2, rb2, a, b))
+        lines.append(L_mb(ta, tb, ra2, rb2, rng.randint(1, 4), a, b))
+        n1 = rng.randint(1, 16)
+        lines.append(L_d("dvv", meth, own, (n1, 2 * n1), ints(rng, n1), ints(rng, 2 * n1)))
+        lines.append(L_d("dvv", meth, own, (8 * n1, 8 * n1 + 8), ints(rng, 8 * n1), ints(rng, 8 * n1 + 8)))
+        cover["s_vec_multiple"] += 8
+    # 7. inner products of lengths 8k-1, 8k, 8k+1 up to 4097
+    ks = [1, 2, 3, 4, 5, 8, 15, 16, 17, 32, 63, 64, 65, 128, 256, 511, 512] if quick else list(range(1, 66)) + [127, 128, 129, 255, 256, 257, 511, 512]
+    q = 0
+    for k in ks:
+        for nv in (8 * k - 1, 8 * k, 8 * k + 1):
+            for val in (ints, realsp):
+                meth, own = METHS[q % 4], (q // 4) % 4
+                q += 1
+                lines.append(L_d("dvv", meth, own, (nv, nv), val(rng, nv), val(rng, nv)))
+                cover["s_dot_8k"] += 1
+    for nv in (4095, 4096, 4097):
+        lines.append(L_d("dmv", "dot", nv % 4, (2, nv, nv), ints(rng, 2 * nv), ints(rng, nv)))
+        lines.append(L_d("dvm", "dot", nv % 4, (nv, nv, 2), ints(rng, nv), ints(rng, 2 * nv)))
+        cover["s_dot_8k"] += 2
 
 
 # ------------------------------------------------------------------------------------------------
@@ -449,35 +679,67 @@ def rows_of(d, r, c, t):
     return [[d[i * c + k] for k in range(c)] for i in range(r)]
 
 
+INF = float("inf")
+
+
+def cls(x):
+    return "nan" if x != x else ("+inf" if x == INF else ("-inf" if x == -INF else "finite"))
+
+
 def check_product(i, key, got, opA, opBt, m, l, n, what):
     """got: list of m*n float tokens; opA: m rows of length l; opBt: n columns of length l.
-    Exact equality when every operand is an integer of small magnitude, otherwise the classical
-    forward bound |fl(sum) - sum| <= gamma_l * sum|a||b|, gamma_l = l u / (1 - l u) <= l * 2^-52."""
-    flat = [x for r in opA for x in r] + [x for r in opBt for x in r]
-    if any(x != x or x in (float("inf"), -float("inf")) for x in flat):
-        return None  # non-finite inputs: shape only (checked by the caller); the tie covers the values
+    (1) operands containing inf / nan: the IEEE class of every entry is decided by the products alone
+        (any nan product, e.g. 0 * inf, or infinities of both signs -> nan; else the infinity present; else finite);
+    (2) operands that are integers times one power of two per operand, small enough that every product and
+        partial sum is exactly representable: equality with the exactly scaled integer triple loop;
+    (3) otherwise the classical forward bound |fl(sum) - sum| <= gamma_l * sum|a||b| <= l * 2^-52 * sum|a||b|."""
+    fa = [x for r in opA for x in r]
+    fb = [x for r in opBt for x in r]
+    flat = fa + fb
+    if any(x != x or x in (INF, -INF) for x in flat):
+        fin = [abs(x) for x in flat if x == x and abs(x) != INF and x != 0]
+        if fin and (max(fin) > 2.0 ** 300 or min(fin) < 2.0 ** -300):
+            return None  # overflow / underflow could change the class: tie only
+        for a in range(m):
+            for b in range(n):
+                ps = [x * y for x, y in zip(opA[a], opBt[b])]
+                if any(p_ != p_ for p_ in ps) or (INF in ps and -INF in ps):
+                    want = "nan"
+                elif INF in ps:
+                    want = "+inf"
+                elif -INF in ps:
+                    want = "-inf"
+                else:
+                    want = "finite"
+                g = h2f(got[a * n + b])
+                if cls(g) != want:
+                    return Failure(i, key, "%s: entry (%d,%d) is %r, the products %r require a %s value" % (
+                        what, a, b, g, ps[:12], want))
+        STATS["class_cells"] = STATS.get("class_cells", 0) + m * n
+        return None
+    ia, ea = scaled(fa)
+    ib, eb = scaled(fb)
+    e = ea + eb
+    ma = max([abs(x) for x in ia] or [0])
+    mb = max([abs(x) for x in ib] or [0])
+    if max(l, 1) * ma * mb < 2 ** 53 and -1074 <= e <= 960:
+        # every product and every partial sum (in any order) is an integer < 2^53 times 2^e: no rounding at all
+        for a in range(m):
+            ra = ia[a * l:(a + 1) * l]
+            for b in range(n):
+                cb = ib[b * l:(b + 1) * l]
+                s = 0
+                for k in range(l):
+                    s += ra[k] * cb[k]
+                ex = f2h(math.ldexp(float(s), e))
+                if got[a * n + b] != ex:
+                    return Failure(i, key, "%s: entry (%d,%d) is %s = %r, expected %s = %d * 2^%d (exact integer triple loop)" % (
+                        what, a, b, got[a * n + b], h2f(got[a * n + b]), ex, s, e), ex)
+        STATS["exact_cells"] += m * n
+        return None
     mags = [abs(x) for x in flat if x != 0]
     if mags and (max(mags) > 2.0 ** 300 or min(mags) < 2.0 ** -300):
         return None  # products may overflow / underflow: the rounding-error bound does not apply (tie only)
-    exact = all(x == int(x) and abs(x) < 2 ** 20 for x in flat) and l < 2 ** 10
-    if exact:
-        A = [[int(x) for x in r] for r in opA]
-        B = [[int(x) for x in r] for r in opBt]
-        for a in range(m):
-            for b in range(n):
-                s = 0
-                ra, cb = A[a], B[b]
-                for k in range(l):
-                    s += ra[k] * cb[k]
-                e = f2h(float(s))
-                if got[a * n + b] != e:
-                    return Failure(i, key, "%s: entry (%d,%d) is %s = %r, expected %s = %d (naive integer triple loop)" % (
-                        what, a, b, got[a * n + b], h2f(got[a * n + b]), e, s), e)
-        STATS["exact_cells"] += m * n
-        return None
-    ia, ea = scaled([x for r in opA for x in r])
-    ib, eb = scaled([x for r in opBt for x in r])
-    e = ea + eb
     for a in range(m):
         ra = ia[a * l:(a + 1) * l]
         for b in range(n):
@@ -489,7 +751,7 @@ def check_product(i, key, got, opA, opBt, m, l, n, what):
                 s += p
                 sa += abs(p)
             g = h2f(got[a * n + b])
-            if g != g or g in (float("inf"), -float("inf")):
+            if g != g or g in (INF, -INF):
                 return Failure(i, key, "%s: entry (%d,%d) is %r for finite moderate inputs" % (what, a, b, g))
             gm, ge = dyadic(g)
             # compare got = gm*2^ge with s*2^e, bound = l * 2^-52 * sa * 2^e
@@ -505,6 +767,58 @@ def check_product(i, key, got, opA, opBt, m, l, n, what):
                     STATS["max_err_over_bound"] = r
     STATS["tolerance_cells"] += m * n
     return None
+
+
+def scale_exp(prev, cur):
+    """p such that cur[k] == prev[k] * 2^p exactly for every k (None if there is no such p)"""
+    if len(prev) != len(cur):
+        return None
+    p = None
+    for x, y in zip(prev, cur):
+        if x != x or y != y or abs(x) == INF or abs(y) == INF:
+            return None
+        if x == 0 or y == 0:
+            if x != y:
+                return None
+            continue
+        mx, ex = math.frexp(x)
+        my, ey = math.frexp(y)
+        if mx != my:
+            return None
+        if p is None:
+            p = ey - ex
+        elif p != ey - ex:
+            return None
+    return 0 if p is None else p
+
+
+def check_equivariance(i, key, base, hdr, a, b, toks, nskip, two=False):
+    """base = [hdr, a, b, reply tokens] of an earlier request with the same header.  When the operands of this request are
+    those of `base` times exact powers of two (2^p, 2^q) and nothing leaves the normal range, the product must be the base
+    result times 2^(p+q), bit for bit (scaling by a power of two commutes with every rounding)."""
+    if base is None or base[0] != hdr or (base[1] == a and base[2] == b):
+        return None, False
+    p, q = scale_exp(base[1], a), scale_exp(base[2], b)
+    if p is None or q is None or (p == 0 and q == 0):
+        return None, False
+    sh = 2 * p if two else p + q
+    mags = [abs(x) for x in base[1] + base[2] if x != 0]
+    if abs(sh) > 500 or (mags and (max(mags) > 2.0 ** 200 or min(mags) < 2.0 ** -200)):
+        return None, True   # an intermediate could leave the normal range: no exact relation
+    for k, (t0, t1) in enumerate(zip(base[3][nskip:], toks[nskip:])):
+        g0 = h2f(t0)
+        if g0 != g0 or abs(g0) == INF:
+            return None, True
+        w = math.ldexp(g0, sh)
+        if w != 0 and not (2.0 ** -1000 <= abs(w) <= 2.0 ** 1000):
+            return None, True
+        if g0 != 0 and not (2.0 ** -1000 <= abs(g0) <= 2.0 ** 1000):
+            return None, True
+        if f2h(w) != t1:
+            return Failure(i, key + ":scale", "entry %d is %r; the same request with the operands divided by 2^%d, 2^%d gave %r, so "
+                           "%r is required (exact power-of-two equivariance)" % (k, h2f(t1), p, q, g0, w), f2h(w)), True
+    STATS["equivariant_lines"] = STATS.get("equivariant_lines", 0) + 1
+    return None, True
 
 
 def parse_mm(t, blocked):
@@ -523,6 +837,13 @@ def parse_mm(t, blocked):
 def oracle(lines, impl):
     fails = []
     last_mm = None   # (request suffix, reply) of the most recent `mm` line, to compare blocked == plain
+    bases = {}       # op -> [header, a, b, reply tokens]: most recent unscaled request (power-of-two equivariance)
+
+    def equiv(op_, hdr, a_, b_, toks_, nskip, key_, two=False):
+        f_, related = check_equivariance(i, key_, bases.get(op_), hdr, a_, b_, toks_, nskip, two)
+        if not related:
+            bases[op_] = [hdr, a_, b_, toks_]
+        return f_
     for i, (line, rep) in enumerate(zip(lines, impl)):
         t = line.split()
         st, toks = parse_reply(rep)
@@ -563,6 +884,8 @@ def oracle(lines, impl):
             opA = rows_of(a, ra, ca, ta)
             opBt = rows_of(b, rb, cb, not tb)
             f = check_product(i, key, got, opA, opBt, m, l, n, "matmul%s" % ("_blocked(bsize=%d)" % bs if bs else ""))
+            if f is None and op == "mm":
+                f = equiv("mm", (ta, tb, ra, rb, len(a), len(b)), a, b, toks, 1, key)
             if f is None and op == "mb" and last_mm and last_mm[0] == (ta, tb, ra, rb, t[6:]):
                 if last_mm[1] != rep.strip():
                     f = Failure(i, key + ":bs%d" % bs, "matmul_blocked(bsize=%d) differs from matmul on the same operands" % bs, last_mm[1])
@@ -585,6 +908,8 @@ def oracle(lines, impl):
             got = toks[1:]
             cols = rows_of(x, k, p, True)
             f = check_product(i, key, got, cols, cols, p, k, p, "xtx")
+            if f is None:
+                f = equiv("xtx", (k, len(x)), x, x, toks, 1, key, two=True)
             if f is None:
                 for a_ in range(p):
                     for b_ in range(a_):
@@ -653,6 +978,8 @@ def oracle(lines, impl):
             opA = rows_of(d1, r1, c1, ta)
             opBt = rows_of(d2, r2, c2, not tb)
             f = check_product(i, key, got, opA, opBt, m, l, n, "%s.%s(own=%d)" % (op, meth, own))
+            if f is None:
+                f = equiv(op, (meth, own, r1, c1, r2, c2), d1, d2, toks, {"dmm": 2, "dvv": 0}.get(op, 1), key)
         if f is not None:
             fails.append(f)
     return fails
